@@ -1,0 +1,101 @@
+//go:build verif
+// +build verif
+
+package proc
+
+import (
+	"net"
+	"sync"
+	"time"
+
+	"github.com/samaritan-proxy/samaritan/pb/common"
+	"github.com/samaritan-proxy/samaritan/pb/config/service"
+	"github.com/samaritan-proxy/samaritan/proc/internal/log"
+	"github.com/samaritan-proxy/samaritan/stats"
+)
+
+type verifDrainLn struct {
+	net.Listener
+	once sync.Once
+	l    *listener
+}
+
+func (v *verifDrainLn) Accept() (net.Conn, error) {
+	c, err := v.Listener.Accept()
+	if err == nil {
+		v.once.Do(func() { v.l.Drain() })
+	}
+	return c, err
+}
+
+// VerifDrainAfterAccept makes Drain arrive after Accept has returned a connection and before the
+// accept loop takes its next step. It reports whether that connection was handed to the handler
+// (the client reads the handler's greeting and an echo of what it wrote afterwards), whether a
+// new connection is refused afterwards, and whether Serve returned once the client had left.
+func VerifDrainAfterAccept(port uint32, scopeName string, wait func(func() bool) bool) (served, newRefused, serveReturned bool) {
+	cfg := &service.Listener{Address: &common.Address{Ip: "127.0.0.1", Port: port}}
+	st := NewStats(stats.CreateScope(scopeName))
+	li, err := NewListener(cfg, st.Downstream, log.New("[verif]"), func(c net.Conn) {
+		c.Write([]byte("x"))
+		b := make([]byte, 1)
+		for {
+			if _, err := c.Read(b); err != nil {
+				return
+			}
+			c.Write(b)
+		}
+	})
+	if err != nil {
+		return false, false, false
+	}
+	l := li.(*listener)
+	orig := defaultListenFunc
+	defaultListenFunc = func(network, address string) (net.Listener, error) {
+		ln, err := orig(network, address)
+		if err != nil {
+			return ln, err
+		}
+		return &verifDrainLn{Listener: ln, l: l}, nil
+	}
+	done := make(chan struct{})
+	go func() { l.Serve(); close(done) }()
+	addr := cfg.Address.Ip + ":" + itoa(port)
+	var c net.Conn
+	wait(func() bool {
+		var err error
+		c, err = net.DialTimeout("tcp", addr, 100*time.Millisecond)
+		return err == nil
+	})
+	defaultListenFunc = orig
+	if c == nil {
+		l.Stop()
+		return false, false, false
+	}
+	b := make([]byte, 1)
+	c.SetReadDeadline(time.Now().Add(2 * time.Second))
+	if n, _ := c.Read(b); n == 1 && b[0] == 'x' {
+		// the connection stays usable after the drain
+		c.Write([]byte("y"))
+		if n, _ := c.Read(b); n == 1 && b[0] == 'y' {
+			served = true
+		}
+	}
+	if c2, err := net.DialTimeout("tcp", addr, 200*time.Millisecond); err != nil {
+		newRefused = true
+	} else {
+		c2.Close()
+	}
+	c.Close()
+	serveReturned = wait(func() bool {
+		select {
+		case <-done:
+			return true
+		default:
+			return false
+		}
+	})
+	if !serveReturned {
+		l.Stop()
+	}
+	return
+}
